@@ -520,7 +520,8 @@ def impl_strip(case):
     arg = uc_unjv(spec)                                     # a str, or an instance of a str subclass
     v = plain_of(arg)
     rec = {"sx_in": [100, enc.enc_str(v)], "key": json.dumps(["strip", spec])}
-    r = implutil.guarded(lambda: R._strip_enclosing(arg))
+    from props import pubapi
+    r = implutil.guarded(lambda: pubapi.strip_enclosing(arg))
     sv = v.strip()
     rec["nontrivial"] = bool(sv) and (sv[0] in '{"' or sv[-1] in '}"')
     if r[0] == "exc":
@@ -538,7 +539,7 @@ def impl_strip(case):
         # adding back with reuse restores the (stripped) original exactly
         from bibtexparser.middlewares.enclosing import AddEnclosingMiddleware
         for d in ("{", '"'):
-            back = AddEnclosingMiddleware(True, False, d)._enclose(w, e, apply_int_rule=True)
+            back = pubapi.enclose(AddEnclosingMiddleware(True, False, d), w, e, True)
             if not same_as(back, sv, arg):
                 ok, detail = False, "reuse does not restore %s: strip gave %r, adding back gave %r" % (_show(spec), (w, e), back)
     rec["oracle"] = {"ok": ok, "detail": detail}
@@ -559,7 +560,8 @@ def impl_enclose(case):
     mw = _mk_add(cfg)
     rec = {"sx_in": [101, _cfg_sx(cfg), enc.enc_value(v), [] if md_abs else [enc.enc_value(md)], int(air)],
            "key": json.dumps(["enclose", inp["value"], cfg, inp["md"], air])}
-    r = implutil.guarded(lambda: mw._enclose(arg, md, apply_int_rule=air))
+    from props import pubapi
+    r = implutil.guarded(lambda: pubapi.enclose(mw, arg, md, air))
     rec["nontrivial"] = is_integer_like(v) or (isinstance(v, str) and v != "" and v[0] in '{"')
     specified = isinstance(v, str) or (isinstance(v, int) and not isinstance(v, bool))
     exp = expected_enclose(cfg, v, md if not md_abs else "absent", air) if specified else None
